@@ -430,8 +430,9 @@ def run_property(prop: str, tier: str, check: Callable, floors: Dict[str, int], 
                 "notes": [o.to_json() for o in notes],
                 "all_obligations": [f"{o.key} :: {'holds' if o.ok else ('note' if o.note else 'FAILS')}" for o in col.obs],
                 "checker_cmd": f"python3-vt -m xsa check {prop} --tier {tier}",
-                "trusted_base": ["CPython ast module", "xsa engine (model, CFG, dataflow helpers)",
-                                 "Python data-model tables in xsa/pydata.py", "networkx (dominators, reachability)"],
+                "trusted_base": ["CPython ast module", "xsa engine (model, normaliser, CFG, reaching definitions, symbolic terms)",
+                                 "Python data-model tables in xsa/pydata.py", "networkx (dominators, reachability)",
+                                 "sympy / lark where the property uses them"],
             },
             "assumptions": meta.get("assumptions", []),
             "wall_s": round(wall, 3),
